@@ -149,6 +149,23 @@ def run(case, acc=None, count=True, rate=None, single=None):
         # the runner's final quiescence must happen after the faults stopped: end the plan at the last schedule entry
         pass
 
+    # call-site observation for finding K30: the engine's own "Giving up" on a folder deletion whose children still appear
+    # to exist (SyncManager._handle_dir_delete_not_empty), reached while faults inflate the retry priorities
+    import logging
+    gave_up = []
+
+    class _GiveUp(logging.Handler):
+        def emit(self, r):
+            try:
+                if "Giving up" in r.getMessage():
+                    gave_up.append(r.getMessage()[:160])
+            except Exception:       # noqa
+                pass
+    gh = _GiveUp()
+    glog = logging.getLogger("cloudsync.sync.manager")
+    glog.addHandler(gh)
+    old_level = glog.level
+    glog.setLevel(logging.WARNING)          # vlib.load silences the package; this one logger is opened for warnings
     # run the schedule (no final quiesce), stop faults, quiesce, evaluate
     from vlib import runner as RN
     if __import__("os").environ.get("VERIF_TRACE"):
@@ -177,7 +194,7 @@ def run(case, acc=None, count=True, rate=None, single=None):
         k18 = any("_update_kids" in st for st in stacks)
         k5site = "f" in case["flavour"] and any("events" in st and ("walk_oid" in st or "_walk" in st) for st in stacks)
         holder.update(k5=len(k5), faults=len(fp.marks), api=fp.api_total, kinds=[m[0] for m in fp.marks], k18=k18,
-                      k5site=k5site)
+                      k5site=k5site, k30=bool(gave_up) and bool(fp.marks))
         if count:
             acc.evaluations += 1
             acc.count("engine_steps", sim.steps)
@@ -196,6 +213,8 @@ def run(case, acc=None, count=True, rate=None, single=None):
                 acc.sigs.add(W.signature(case) + ":%s:%s" % (rate, single))
         return probs, holder
     finally:
+        glog.removeHandler(gh)
+        glog.setLevel(old_level)
         sim.close()
 
 
@@ -272,12 +291,33 @@ def run_perm(seed, index, acc, count=True):
     return probs, {"family": "PERM", "flavour": flavour, "scen": scen, "src": src, "index": index, "seed": seed}
 
 
+def k31_eligible(case):
+    """input predicate of finding K31: a user deletes a file and creates a file of the same name again within one window on
+    an id-stable side (a new object id at an old path)"""
+    from vlib import hazards as H
+    for w in H.windows(case["sched"]):
+        for side in (0, 1):
+            if case["flavour"][side] == "p":
+                continue
+            gone = set()
+            for op in w:
+                if op["side"] != side:
+                    continue
+                if op["op"] == "delete":
+                    gone.add(op["path"])
+                elif op["op"] == "create" and op["path"] in gone:
+                    return True
+    return False
+
+
 def classify(acc, case, probs, h):
     if h.get("k5"):
         acc.known_hit("K5", W.brief_case(case))
     if not probs:
         if h.get("k18"):
             acc.count("k18_site_hit_but_run_passed")
+        if h.get("k30"):
+            acc.count("k30_site_hit_but_run_passed")
         return
     if h.get("k18"):
         acc.count("failures_attributed_K18")
@@ -285,6 +325,12 @@ def classify(acc, case, probs, h):
     elif h.get("k5site"):
         acc.count("failures_attributed_K5")
         acc.known_hit("K5", {"case": W.brief_case(case), "problem": str(probs[0])[:300]})
+    elif h.get("faults") and k31_eligible(case) and any("conflicted" in str(q) for q in probs):
+        acc.count("failures_attributed_K31")
+        acc.known_hit("K31", {"case": W.brief_case(case), "problem": str(probs[0])[:300]})
+    elif h.get("k30") and all(str(q[0]).startswith(("unexpected_", "diverged")) for q in probs):
+        acc.count("failures_attributed_K30")
+        acc.known_hit("K30", {"case": W.brief_case(case), "problem": str(probs[0])[:300]})
     else:
         acc.violation(probs[0][0], probs[:4], case)
 
